@@ -8,8 +8,8 @@ import (
 	"google.golang.org/protobuf/proto"
 
 	raft "go.etcd.io/raft/v3"
-	pb "go.etcd.io/raft/v3/raftpb"
 	"go.etcd.io/raft/v3/quorum"
+	pb "go.etcd.io/raft/v3/raftpb"
 	"go.etcd.io/raft/v3/tracker"
 
 	"verifharness/enc"
@@ -33,43 +33,45 @@ type propInfo struct {
 }
 
 type nodeMon struct {
-	prev       *raft.VerifDump
-	startTerm  uint64
-	lastRdHS   *pb.HardState
-	nextApply  uint64
-	prevState  raft.StateType
-	prevTerm   uint64
-	preGrants  map[uint64]bool
-	leadSince  int
+	prev      *raft.VerifDump
+	startTerm uint64
+	lastRdHS  *pb.HardState
+	nextApply uint64
+	prevState raft.StateType
+	prevTerm  uint64
+	preGrants map[uint64]bool
+	leadSince int
+	viewFirst uint64 // C09: first index of the logical log, per incarnation
 	// C17 (CheckQuorum): ticks of this node, and for the current leadership the tick at which
 	// each peer was last heard from
-	ticks      int
-	leadTerm   uint64
-	leadStart  int
-	heard      map[uint64]int
+	ticks     int
+	leadTerm  uint64
+	leadStart int
+	heard     map[uint64]int
 }
 
 type Monitors struct {
-	c     *Cluster
-	viol  []Violation
-	seen  map[string]bool
+	c    *Cluster
+	viol []Violation
+	seen map[string]bool
 
-	handed    map[uint64]string // C01: index -> entry handed out first
-	committed map[uint64]string // entries known committed (below some node's commit index)
-	leaders   map[uint64][2]uint64
-	leaderCfg map[uint64]string
-	votes     map[[2]uint64]uint64 // (voter, term) -> candidate, real votes on the wire
-	prevotes  map[[3]uint64]bool   // (voter, term, candidate) pre-vote grants on the wire
-	persisted map[uint64]*pb.HardState
-	confAt    map[uint64]string
-	reads     map[string]uint64
-	maxReported uint64
+	handed          map[uint64]string // C01: index -> entry handed out first
+	committed       map[uint64]string // entries known committed (below some node's commit index)
+	leaders         map[uint64][2]uint64
+	leaderCfg       map[uint64]string
+	votes           map[[2]uint64]uint64 // (voter, term) -> candidate, real votes on the wire
+	prevotes        map[[3]uint64]bool   // (voter, term, candidate) pre-vote grants on the wire
+	persisted       map[uint64]*pb.HardState
+	confAt          map[uint64]string
+	reads           map[string]uint64
+	maxReported     uint64
 	maxLeaderCommit uint64
-	props     map[string]*propInfo
-	nm        map[uint64]*nodeMon
-	stepMsg   *pb.Message
-	stepPrev  *raft.VerifDump
-	stepLast  [2]uint64
+	props           map[string]*propInfo
+	nm              map[uint64]*nodeMon
+	stepMsg         *pb.Message
+	stepPrev        *raft.VerifDump
+	stepLast        [2]uint64
+	viewBefore      string // C18: logical log before a persistence acknowledgement is processed
 	// C15: fault-free suffixes run / converged, rounds (ticks) needed
 	healRuns, healed, healRounds int
 	// property-relevant events on which a monitor evaluated its condition (evidence: what was exercised)
@@ -187,6 +189,7 @@ func (m *Monitors) onStart(n *Node) {
 	x.prevState = d.State
 	x.prevTerm = d.Term
 	x.preGrants = map[uint64]bool{}
+	x.viewFirst = 0
 	hs, _, _ := n.st.InitialState()
 	x.lastRdHS = hs
 	snap, _ := n.st.Snapshot()
@@ -267,6 +270,32 @@ func (m *Monitors) onReady(n *Node, rd *raft.Ready) {
 				class = "F3"
 			}
 			m.report("C11", class, "node %d: read state %q index %d below commit %d reported before the request", n.id, ctx, rs.Index, want)
+		}
+	}
+	// C18: entry ranges are consecutive
+	ranges := [][]*pb.Entry{rd.Entries}
+	for _, mm := range rd.Messages {
+		if mm.GetType() == pb.MsgStorageAppend {
+			ranges = append(ranges, mm.GetEntries())
+		}
+		if mm.GetType() == pb.MsgApp && len(mm.GetEntries()) > 0 {
+			m.hit("C18.append-range")
+			if mm.GetEntries()[0].GetIndex() != mm.GetIndex()+1 {
+				m.report("C18", "", "node %d: MsgApp to %d with prev index %d starts at entry %d", n.id, mm.GetTo(), mm.GetIndex(), mm.GetEntries()[0].GetIndex())
+			}
+			ranges = append(ranges, mm.GetEntries())
+		}
+	}
+	for _, es := range ranges {
+		for i, e := range es {
+			if e.GetIndex() != es[0].GetIndex()+uint64(i) {
+				m.report("C18", "", "node %d: an entry range handed out is not consecutive: index %d at position %d after %d", n.id, e.GetIndex(), i, es[0].GetIndex())
+				break
+			}
+			if i > 0 && e.GetTerm() < es[i-1].GetTerm() {
+				m.report("C18", "", "node %d: an entry range handed out has decreasing terms at index %d", n.id, e.GetIndex())
+				break
+			}
 		}
 	}
 	// C16: append sizes
@@ -449,7 +478,31 @@ func (m *Monitors) onSend(n *Node, msg *pb.Message) {
 	}
 }
 
+// viewString renders the logical log of n (first index, then every entry).
+func (m *Monitors) viewString(n *Node) string {
+	d := n.rn.VerifState()
+	v := n.logView(&d)
+	var sb strings.Builder
+	fmt.Fprintf(&sb, "%d/%d:", v.first, v.baseT)
+	for _, e := range v.ents {
+		sb.WriteString(entKey(e))
+		sb.WriteByte(',')
+	}
+	return sb.String()
+}
+
+// beforeAdvance: the application is about to acknowledge the persistence of a Ready (sync).
+func (m *Monitors) beforeAdvance(n *Node) {
+	if n.alive && n.rn != nil {
+		m.viewBefore = m.viewString(n)
+	}
+}
+
 func (m *Monitors) beforeStep(n *Node, msg *pb.Message) {
+	m.viewBefore = ""
+	if t := msg.GetType(); (t == pb.MsgStorageAppendResp || t == pb.MsgStorageApplyResp) && n.alive && n.rn != nil {
+		m.viewBefore = m.viewString(n)
+	}
 	if x := m.node(n); x.heard != nil && msg.GetFrom() != 0 && msg.GetFrom() != n.id && !raft.IsLocalMsg(msg.GetType()) {
 		x.heard[msg.GetFrom()] = x.ticks
 	}
@@ -492,6 +545,17 @@ func (m *Monitors) afterOp(n *Node, kind string) {
 		msg = nil
 	}
 	m.stepMsg = nil
+	// C18: a persistence acknowledgement (possibly stale or reordered) never changes the logical log
+	if m.viewBefore != "" && (kind == "step" || kind == "advance") {
+		m.hit("C18.persistence-ack")
+		// (the old log must be a prefix of the new one: Advance also steps the node's messages to
+		// itself, where a candidate that becomes leader appends its empty entry, and an apply
+		// acknowledgement can make a leader append the entry that leaves a joint configuration)
+		if now := m.viewString(n); !strings.HasPrefix(now, m.viewBefore) {
+			m.report("C18", "", "node %d: a persistence acknowledgement (%s) changed the logical log from %.300s to %.300s", n.id, kind, m.viewBefore, now)
+		}
+	}
+	m.viewBefore = ""
 
 	// C06 / C14-adjacent: commit never ahead of the log, never decreasing within an incarnation
 	if d.Committed > v.last() {
@@ -503,6 +567,12 @@ func (m *Monitors) afterOp(n *Node, kind string) {
 	if prev != nil && d.Term < prev.Term {
 		m.report("C07", "", "node %d: term went back %d -> %d", n.id, prev.Term, d.Term)
 	}
+	// C09: the base of the logical log never moves back within an incarnation (a snapshot that
+	// was accepted stays the base until it is durable; compaction only moves forward)
+	if kind != "new" && x.viewFirst != 0 && v.first < x.viewFirst {
+		m.report("C09", "", "node %d: the base of its log went back from %d to %d (%s)", n.id, x.viewFirst-1, v.first-1, kind)
+	}
+	x.viewFirst = v.first
 	// C03: within one log
 	pt := v.baseT
 	for i, e := range v.ents {
@@ -567,6 +637,10 @@ func (m *Monitors) afterOp(n *Node, kind string) {
 				class = "F5"
 			}
 			m.report("C01", class, "node %d considers %s committed at index %d, another node %s", n.id, k, i, old)
+			if d.State != raft.StateLeader {
+				// C06: a follower's commit index covers only the prefix on which it matches the leader
+				m.report("C06", class, "node %d (not leader) moved its commit index over index %d where it holds %s, not the committed %s", n.id, i, k, old)
+			}
 		} else if !ok {
 			m.committed[i] = k
 		}
